@@ -289,7 +289,7 @@ pub fn ambient_recheck(pool: &Pool, every: usize, work_dir: &str, workers: usize
     // every `every`-th entry, and every malformed / extreme one (inputs whose handling is most likely to consult
     // something ambient: locale-style separators, limits, messages)
     let idx: Vec<usize> = (0..pool.entries.len())
-        .filter(|i| every > 0 && (i % every == 0 || matches!(pool.entries[*i].origin, "malformed" | "extreme_shape" | "readme" | "seed_vocabulary")))
+        .filter(|i| every > 0 && (i % every == 0 || matches!(pool.entries[*i].origin, "malformed" | "extreme_shape" | "readme" | "seed_vocabulary" | "edge_tokens")))
         .collect();
     if idx.is_empty() {
         st.reason = "empty sample".into();
